@@ -68,9 +68,9 @@ PROPS.update({
         "module": "SimilarVerif.Props.C03",
         "suites": ["raw", "cap", "text"],
         "rule": "raw/cap as for C01/C02; the validator computes a brute-force DP LCS for every Myers and LCS run (raw and captured) and compares deleted+inserted, equal total and the f32 ratio",
-        "theorem_status": "lower bound for every valid script (full); LCS minimal for all inputs and sub-ranges (full); clean-up and Replace keep item counts (partial correctness of Compact); Myers minimal (full: raw stream costs N+M-2L and beats every valid script; theory in Lemmas/MyersTheory+MyersOptimal); captured LCS minimal; captured Myers: counts preserved by the pipeline (C10) so minimal as well",
+        "theorem_status": "lower bound for every valid script (full); LCS minimal for all inputs and sub-ranges (full); clean-up and Replace keep item counts (partial correctness of Compact); Myers minimal (full: raw stream costs N+M-2L and beats every valid script; theory in Lemmas/MyersTheory+MyersOptimal); captured Myers and captured LCS end to end (capture_myers_minimal, capture_lcs_minimal_total: for in-bounds ranges without deadline the capture function RETURNS, its ops are valid, cost N+M-2L, nEq = L, ratio pair (2L, N+M), no valid script is cheaper)",
         "level_text": "Lean theorems: cost >= N+M-2L for every valid script; LCS raw stream attains it (table correctness + greedy walk optimality + prefix/suffix stripping); clean-up preserves counts; Myers raw stream attains it as well (middle-snake theory: the split point lies on an optimal path). Minimality is also validated on the implementation by brute force on the whole explored space.",
-        "level_note": "Spec.lcsLen is the textbook recursion; ratio = 2L/(N+M) is proved for the exact fraction, the f32 value is compared bit for bit by the correspondence",
+        "level_note": "Spec.lcsLen is the textbook recursion; ratio = 2L/(N+M) is proved for the exact fraction, the f32 value is the soft-float F32.ratio of that pair (Model/F32.lean), proved monotone and exact below 2^24, compared bit for bit with the implementation and with native Float32 on every request",
     },
     "C06": {
         "title": "Tokenizers are lossless partitions with the documented token shape",
@@ -123,9 +123,9 @@ PROPS.update({
         "module": "SimilarVerif.Props.C15",
         "suites": ["raw", "cap"],
         "rule": "raw/cap as for C01/C02; for every Patience run (raw and captured) the validator computes the longest common in-order subsequence of the items unique on both sides by brute force and compares with the number of such items reported Equal",
-        "theorem_status": "full: pairing clause (an anchored item is matched to its unique counterpart) and size clause (a chain of lcsLen(unique old, unique new) anchor pairs is reported Equal: the outer Myers run over the unique lists is optimal and every pair it reports reaches the user stream), raw stream, no deadline; the captured variant follows from C10 (the clean-up never moves deletions and keeps counts) and is validated by the brute-force LIS validator",
+        "theorem_status": "full: pairing clause (an anchored item is matched to its unique counterpart) and size clause (a chain of lcsLen(unique old, unique new) anchor pairs is reported Equal: the outer Myers run over the unique lists is optimal and every pair it reports reaches the user stream), raw stream, no deadline; captured variant proved as well (captured_count_ge_lis(_total), captured_anchor_matched_to_counterpart: capture_diff with Patience returns valid ops whose Equal total is at least the LIS bound, and pairs unique items with their counterparts)",
         "level_text": "Lean theorems: Patience streams are valid scripts; equal segments pair equal items, hence unique items their counterparts; unique() is ascending and in range; size clause: at least lcsLen(unique old, unique new) anchors are reported Equal (no deadline).",
-        "level_note": "size clause proved for the raw stream (outer Myers run over the unique lists is optimal and every pair it reports reaches the user); the captured-ops variant of the size clause is validated by the brute-force LIS validator, not a separate theorem",
+        "level_note": "size clause proved for the raw stream and for captured ops (the pipeline preserves nEq)",
     },
     "C19": {
         "title": "Myers and Patience do work proportional to (N+M)*(D+1)",
@@ -154,7 +154,7 @@ PROPS.update({
         "module": "SimilarVerif.Props.C05",
         "suites": ["udiff"],
         "rule": "udiff: line diffs of all texts of up to 4 lines from {a LF, b LF, a CRLF, c CR} optionally ending in a line without terminator, random longer line texts with few edits (several hunks), bytes with invalid UTF-8 x 3 algorithms x radius 0..3 (thorough 0..4) x header on/off x Display/to_writer x str/bytes; the request carries the implementation's ops and tokens, the model renders from them; validator: strict parse + apply of the real output, header counts/starts/order, context <= radius, deletions before insertions, marker placement, writer vs Display; non-trivial = output has >= 1 hunk and context",
-        "theorem_status": "structured part full under Exact (positions exact, C11): renderer total, output = structured hunks, strict application gives new, counts/positions/order, equal inputs render empty, context <= radius, deletions first, line and range formats. Byte level: a strict parser of the unified format is proved to read the printed bytes back as exactly the structured hunks (header names, all three range forms, count-driven bodies, missing-newline markers, LF/CRLF/CR terminators) and the parsed hunks patch old into new (Lemmas/UdiffParse.lean; to_writer path with hints, line tokens, names without LF). The unchanged code violates the Exact hypothesis at the compaction swap (known finding): counterexample theorem included",
+        "theorem_status": "structured part full under Exact (positions exact, C11): renderer total, output = structured hunks, strict application gives new, counts/positions/order, equal inputs render empty, context <= radius, deletions first, line and range formats. Byte level: a strict parser of the unified format is proved to read the printed bytes back as exactly the structured hunks (header names, all three range forms, count-driven bodies, missing-newline markers, LF/CRLF/CR terminators) and the parsed hunks patch old into new (Lemmas/UdiffParse.lean; to_writer path with hints, line tokens, names without LF). Display vs writer: display_is_lossy_writer (the Display output is exactly the lossy UTF-8 decoding of the to_writer output, every input, both hint settings) and display_eq_writer_on_utf8. The unchanged code violates the Exact hypothesis at the compaction swap (known finding): counterexample theorem included",
         "level_text": "Lean theorems about the model renderer for all valid exact op lists, radii and settings; rendered bytes of the implementation compared with the model byte for byte (Display and writer), and parsed + strictly applied by an independent validator.",
         "level_note": "KNOWN FINDING KF-compact-swap-udiff (stale carried index after the compaction swap feeds wrong header positions); a failing case is attributed to it only if it disappears when the diff is rebuilt with the cfg(similar_verif) swap repair",
     },
@@ -172,27 +172,27 @@ PROPS.update({
         "module": "SimilarVerif.Props.C16",
         "suites": ["inline"],
         "rule": "inline: line diffs of text pairs sharing words (multi-byte words, mixed terminators, missing final newline) x algorithms x inline deadline none / expired / small fuel; every op of every diff through iter_inline_changes_deadline; word segmentation passed as external parameter; non-trivial = a Replace op passing both ratio gates",
-        "theorem_status": "full relative to (i) the word segmenter's contract SegsOK and (ii) validity of the second-level captured ops (C02): same tags/indices as plain expansion, segments concatenate to the line, emphasised segments are non-newline runs without line breaks, missing-newline flag agrees; both outcomes of each float gate covered",
+        "theorem_status": "full relative to (i) the word segmenter's contract SegsOK and (ii) validity of the second-level captured ops (C02): same tags/indices as plain expansion, segments concatenate to the line, emphasised segments are non-newline runs without line breaks, missing-newline flag agrees; both outcomes of each ratio gate covered; the gates are soft-float comparisons (F32.lt .. F32.half) and gate_fires_iff characterises them exactly below 2^24 tokens (fires iff 4*matches < len)",
         "level_text": "Lean theorems for every op kind and both outcomes of both ratio gates; the implementation's inline changes are compared with the model segment by segment under the virtual clock.",
-        "level_note": "unicode word segmentation is an external parameter; Float32 gates are opaque (both branches proved)",
+        "level_note": "unicode word segmentation is an external parameter; f32 gates are modelled by the soft-float model F32 (cross-checked against native Float32 by the driver on every request)",
     },
     "C17": {
         "title": "Remapped slices are the original substrings and reconstruct both texts",
         "module": "SimilarVerif.Props.C17",
         "suites": ["remap"],
         "rule": "remap: 5 tokenizers x str/bytes x 3 algorithms over small exhaustive and random text pairs incl. empty and multi-byte; TextDiffRemapper::iter_slices for every op plus the six utils::diff_* helpers; non-trivial = >= 2 ops",
-        "theorem_status": "full for any valid op list over tiling tokens: no panic, exact byte ranges, tags of slice-wise expansion, slice = concatenation of its tokens, no empty slice, both texts reconstructed byte for byte",
+        "theorem_status": "full for any valid op list over tiling tokens: no panic, exact byte ranges, tags of slice-wise expansion, slice = concatenation of its tokens, no empty slice, both texts reconstructed byte for byte; the one-call helpers diff_chars/words/unicode_words/graphemes/lines end to end (helpers_total, helpers_nonempty, helpers_reconstruct_old/new, helpers_tags: for tokens that tile the texts, every algorithm, every clock: they return, never an empty slice, both texts reconstructed); text_diff_total: the text diff of any two token arrays returns a valid op list for every algorithm and clock",
         "level_text": "Lean theorems about the model of SliceRemapper/TextDiffRemapper for all token length lists and valid scripts; byte ranges of the implementation's slices compared with the model; helpers validated by reconstruction.",
-        "level_note": "the one-call helpers compose tokenizer + text diff + remapper; their composition is covered by correspondence and validator, not by a single theorem",
+        "level_note": "the tokenizer enters the helper theorems through the Tiling hypothesis that C06 proves for the non-unicode tokenizers (unicode ones: relative to the segmenter contract)",
     },
     "C18": {
         "title": "get_close_matches equals exhaustive ranking by similarity ratio",
         "module": "SimilarVerif.Props.C18",
         "suites": ["close"],
         "rule": "close: words and candidate lists (2-5 candidates incl. duplicates and the empty string) over {a,b,c,e-acute} up to length 4 x n 0..4 x cutoffs incl. values hit exactly, random longer words; thorough adds the tiny-ratio family (200000-char candidates); validator: brute-force ranking with the crate's own ratio(); non-trivial = >= 2 candidates pass",
-        "theorem_status": "order part full (result = first n of the passing candidates in the unique (key desc, candidate asc) order); filter soundness in exact arithmetic full; transfer to f32 under the explicit monotone-rounding hypothesis Rnd (Float32 is opaque to the kernel)",
-        "level_text": "Lean theorems float-free where possible; native Float32 in the driver reproduces the implementation's f32 results bit for bit on every request.",
-        "level_note": "IEEE-754 facts (monotone rounding, to_bits order) are assumptions named in the Props file, not axioms",
+        "theorem_status": "FULL, no hypothesis: get_close_matches_is_exhaustive_ranking — for every tokenizer, word, candidate list, n and cutoff bit pattern (NaN, negative, subnormal, infinite included) the model returns exactly the first n of all candidates whose f32 ratio is >= cutoff, sorted by ratio descending then lexicographically; the two pre-filters are invisible (prefilters_are_invisible / filters_never_discard_f32); heap-key order = IEEE order of the ratios (key_order_is_ratio_order); the f32 operations are the soft-float model F32 (n as f32, 2.0*x, correctly rounded x/y, IEEE comparisons on arbitrary patterns) whose rounding is PROVED monotone (soft_float_rounding_is_monotone discharges the former Rnd hypothesis)",
+        "level_text": "Lean theorems over a soft-float model of the f32 operations (exact natural-number arithmetic, validated against hardware on 5*10^5 vectors in lean/test-f32 and re-checked against native Float32 by the driver on every request); the implementation's results are compared bit for bit on every request.",
+        "level_note": "trusted: hardware f32 = the soft-float model F32 on the values that occur (cross-checked on every run); no IEEE fact is assumed in any theorem",
     },
 })
 
